@@ -531,6 +531,38 @@ Definition inside_spec (lv : list dobj) (set : bset) (ids : list N) : bool :=
 Definition covering_iter_spec (lv : list dobj) (set : bset) (ids : list N) : bool :=
   ids_eqb ids (map o_id (filter (covering_pred set) lv)).
 
+(* the inside family against the brute-force list B = [objects of the level with a non-empty cpuset
+   included in the set, in logical order]: nbobjs = |B|; get_obj_inside(k) = B[k] for k < |B| and
+   NULL for k = |B|; index_inside(B[k]) = k; and for EVERY object o of the level (CPU-less ones
+   included) index_inside(o) = -1 when o's cpuset is not included in the set, else the number of
+   members of B before o in the level *)
+Fixpoint index_in_level (lv : list dobj) (id : N) (pos : nat) : option nat :=
+  match lv with
+  | [] => None
+  | o :: tl => if o_id o =? id then Some pos else index_in_level tl id (S pos)
+  end.
+
+Definition nb_inside_spec (lv : list dobj) (set : bset) (nb : N) (items : list (option N * Z)) (alls : list (N * Z)) : bool :=
+  let B := filter (inside_pred set) lv in
+  (nb =? N.of_nat (List.length B)) &&
+  Nat.eqb (List.length items) (S (List.length B)) &&
+  forallb (fun ko => match nth_error items (fst ko) with
+                     | Some (Some i, idx) => (i =? o_id (snd ko)) && (idx =? Z.of_nat (fst ko))%Z
+                     | _ => false end) (combine (seq 0 (List.length B)) B) &&
+  match nth_error items (List.length B) with Some (None, _) => true | _ => false end &&
+  Nat.eqb (List.length alls) (List.length lv) &&
+  forallb (fun ii => match index_in_level lv (fst ii) 0 with
+                     | None => false
+                     | Some pos =>
+                         match nth_error lv pos with
+                         | None => false
+                         | Some o =>
+                             if bs_subset (dcs o) set
+                             then (snd ii =? Z.of_nat (List.length (filter (inside_pred set) (firstn pos lv))))%Z
+                             else (snd ii =? -1)%Z
+                         end
+                     end) alls.
+
 (* to_nodeset: i in the result iff some NUMA node of os_index i intersects the cpuset *)
 Definition to_nodeset_spec (nl : list dobj) (cpuset res : bset) : bool :=
   negb (inf res) &&
